@@ -8,6 +8,7 @@ From Coq Require Import List NArith Bool. Import ListNotations.
 From BddVerif Require Import Model.Bdd Model.Apply Model.Ops Model.VarSet Proofs.Sem Proofs.Canon Proofs.NormalForms
   Proofs.Thresholds Proofs.VarSet.
 Open Scope N_scope.
+From BddVerif Require Import Model.OpsFast Proofs.OpsFast.
 
 (* ======================================================================================== *)
 (* names                                                                                     *)
@@ -137,3 +138,9 @@ Example C16_ex_threshold : exists r, mk_sat_k false 4 2 [3; 0; 3; 1] = Ok r /\
   eval r (val_of_list [false; false; true; true]) = false.
 Proof. vm_compute. eexists. repeat split. Qed.
 Print Assumptions C16_ex_threshold.
+
+(* thresholds above the number of distinct listed variables (e.g. k = 65,536): the answer is the constant, and the
+   shortcut the model driver uses for such k is equal to the reference model *)
+Theorem C16_sat_k_large_threshold : forall upto nv k vars, mk_sat_k_fast upto nv k vars = mk_sat_k upto nv k vars.
+Proof. exact mk_sat_k_fast_eq. Qed.
+Print Assumptions C16_sat_k_large_threshold.
